@@ -20,7 +20,9 @@ type Prop struct{}
 func (Prop) ID() string    { return "C14" }
 func (Prop) Level() string { return "exploration" }
 func (Prop) Configs(tier string) []string {
-	return []string{"c-default", "c-purego"}
+	// the containers are protected by SM4 (CBC/GCM/ECB), SM3 and the SM2 curve: the tiers on which those differ
+	// (table-driven GCM over the asm block, Go SM4, AVX instead of AVX2) are part of "every offered cipher"
+	return []string{"c-default", "c-purego", "c-nopclmul", "c-noaes", "c-noavx2"}
 }
 
 func (Prop) SelfTest() error {
